@@ -5,7 +5,7 @@ props=[json.loads(l) for l in open('/verif/properties.jsonl')]
 ids=[p['id'] for p in props]
 COMMON_NOTE=("Trusted base: the consensus stub delivers only what a correct CometBFT could (real tmtypes.ValidatorSet arithmetic, H+2 rule, "
  "votes/evidence only for members of the historical set); the reference model is a reading of the property statement (exact integer/rational arithmetic); "
- "sampling, not proof: a clean batch is evidence over the stated bounds only. Gateway is an EOA holding the configured gateway address; disk is MemDB.")
+ "sampling, not proof: a clean batch is evidence over the stated bounds only. Gateway is an EOA holding the configured gateway address (C09/C10: a forwarder contract in a third of the runs); disk is MemDB (clean restarts and crashes inside blocks lose exactly the uncommitted state).")
 # id -> (category, technique, text, design_ref, extra_note)
 CLAIMED={
  "C15":("exploration","deterministic simulation: seeded block-time schedules (stalls, jumps, boundary-exact times) against the real app, epoch reference model + recorded hook calls",
